@@ -117,6 +117,8 @@ impl Prop for C05 {
         if src.len() > 64 * 1024 {
             return None;
         }
+        // rarely a byte order mark in front (a refusal must hand back exactly the input)
+        let src = if t.chance(10) { format!("{}{src}", '\u{feff}') } else { src };
         Some(TotCase { src, cfg: extreme_cfg(t), origin })
     }
 
